@@ -148,6 +148,15 @@ def edges_consistent(snap_bins, numpy_bins) -> bool:
     return numpy_bins == [snap_bins[0][0]] + [b[1] for b in snap_bins]
 
 
+def meta_repr(h) -> str:
+    """the meta data as the histogram reports it now (canonical text; private key of the snapshots)"""
+    import json as _json
+    try:
+        return _json.dumps({str(k): v for k, v in h.meta_data.items()}, sort_keys=True, default=str)
+    except Exception as e:      # pragma: no cover
+        return f"unreadable: {e}"
+
+
 def snap1(h: Histogram1D) -> dict:
     bins = np.asarray(h.bins).reshape(-1, 2)
     return {
@@ -161,6 +170,7 @@ def snap1(h: Histogram1D) -> dict:
         "_freq_dtype": str(h.frequencies.dtype), "_err2_dtype": str(h.errors2.dtype),
         "_shape_ok": h.frequencies.shape == h.errors2.shape == (bins.shape[0],),
         "_numpy_bins": _numpy_bins_of(h.binning),
+        "_meta": meta_repr(h),
     }
 
 
@@ -416,6 +426,16 @@ def _step(s: Store, op: dict, exc_log: list):
                 h.frequencies = assigned
             else:
                 h.errors2 = assigned
+            return "ok"
+        if name == "set_meta":          # h.meta_data[key] = value (a JSON-like value, possibly a nested list / dict)
+            import copy as _copy
+            s.get(op["h"]).meta_data[op["key"]] = _copy.deepcopy(op["value"])
+            return "ok"
+        if name == "append_meta":       # an edit INSIDE a nested meta-data value: h.meta_data[key].append(x)
+            md = s.get(op["h"]).meta_data
+            if not isinstance(md.get(op["key"]), list):
+                return "ok"             # this object does not carry the entry: nothing to edit
+            md[op["key"]].append(op["value"])
             return "ok"
         if name == "set_adaptive":
             s.get(op["h"]).set_adaptive(bool(op.get("value", True)))
